@@ -159,7 +159,7 @@ func init() {
 		Prop{
 			ID: "C07",
 			Runs: []Run{
-				{Harness: "zzverif/zzh.ZZC07Scopes", Desc: "8 placements of an @ignore comment (before package clause, alone before func / type declaration, alone before a multi-line statement, trailing a statement, trailing 'if ... {', last in a body, trailing a struct field), any <= 2 of them active; query = ANY byte position of the file x 7 codes: Contains == documented extent", Bounds: map[string]interface{}{"skeleton": "c07Src", "placements": 8, "active_markers": "<= 2", "query_position": "every offset 0..len+2 (symbolic)"}},
+				{Harness: "zzverif/zzh.ZZC07Scopes", Desc: "10 placements of an @ignore comment (before package clause, alone before func / type declaration, alone before a multi-line statement, alone before a struct field, alone before a local var declaration, trailing a statement, trailing an if-header, last in a body, trailing a struct field), any <= 2 of them active; query = ANY byte position of the file x 7 codes: Contains == documented extent", Bounds: map[string]interface{}{"skeleton": "c07Src", "placements": 10, "active_markers": "<= 2", "query_position": "every offset 0..len+2 (symbolic)"}},
 				{Harness: "zzverif/zzh.ZZC07Spellings", Desc: "declaration placement with 9 code-list spellings (single, several + prose, category, ALL lower-case, unknown + trailing comma, other category, near-miss keywords)", Bounds: map[string]interface{}{"spellings": 9}},
 				{Harness: "zzverif/zzh.ZZC07SpellingsStmt", Desc: "statement placement with the 9 spellings", Bounds: map[string]interface{}{"spellings": 9}},
 				{Harness: "zzverif/zzh.ZZC07Rereport", Desc: "report-time filter (IMM) and detection-time filter with once-per-file re-reporting (TONL01, PKGO01 move to the next unsuppressed use of 3), trailing and stand-alone markers, 5x4x4x4 marker spellings", Bounds: map[string]interface{}{"skeleton": "c07SrcRD + c07SrcRU", "holes": 4}},
@@ -183,6 +183,19 @@ func init() {
 			},
 			Outside:     []string{"external test packages (package d_test) as separate passes", "arbitrary exclude-path strings (4 fixed settings incl. empty list and a prefix look-alike)"},
 			Assumptions: []string{"file names reach the code only through token.FileSet.Position (host strings replaced by the symbolic name)"},
+		},
+	)
+}
+
+func init() {
+	props = append(props,
+		Prop{
+			ID: "C13",
+			Runs: []Run{
+				{Harness: "zzverif/zzh.ZZC13Spelling", Desc: "the same nine statements (field write, ++, write through pointer parameter, T{}, &T{}, new(T), var v T, method call, signature) in five files of package u that spell the type directly, through a renamed import, parenthesised, through a local alias (incl. alias of the pointer type) and through an alias declared in a third package; annotation kind on the type symbolic (@immutable/@constructor/@testonly/@packageonly/none): every file gets the same codes on the same lines", Bounds: map[string]interface{}{"spellings": 5, "annotation_kinds": 5, "statements": 9}},
+			},
+			Outside:     []string{"aliases of aliases; generic aliases; dot-imports; @implements through aliases (C05)"},
+			Assumptions: []string{"as C01-C04; a local alias declaration is itself a reference to the type (PKGO01's first use in that file)"},
 		},
 	)
 }
